@@ -211,9 +211,34 @@ def ring_revisits_vertex(g):
     return False
 
 
+def near_coincident_backtracking(A, B):
+    """C03-F8: two single polygons of almost equal area at |ordinate| >= 5e8, one with a near-collinear back-tracking vertex triple"""
+    if A[0] != 'PG' or B[0] != 'PG' or not A[1] or not B[1]: return False
+    if L.magnitude([A, B]) < 5e8: return False
+    def area(g): return abs(sum(float(r[i][0]) * r[i + 1][1] - float(r[i + 1][0]) * r[i][1] for r in g[1][:1] for i in range(len(r) - 1))) / 2
+    # shoelace about the first vertex to keep the floats small
+    def area0(g):
+        r = g[1][0]; ox, oy = r[0]
+        return abs(sum((r[i][0] - ox) * (r[i + 1][1] - oy) - (r[i + 1][0] - ox) * (r[i][1] - oy) for i in range(len(r) - 1))) / 2
+    a, b = area0(A), area0(B)
+    if a == 0 or abs(a - b) > 1e-6 * a: return False
+    def backtracks(g):
+        for r in g[1]:
+            pts = r[:-1]; n = len(pts)
+            for i in range(n):
+                p, q, t = pts[i - 1], pts[i], pts[(i + 1) % n]
+                ux, uy, vx, vy = q[0] - p[0], q[1] - p[1], t[0] - q[0], t[1] - q[1]
+                dot = ux * vx + uy * vy; cr = ux * vy - uy * vx
+                if dot < 0 and abs(cr) <= 1e-6 * (ux * ux + uy * uy) ** 0.5 * (vx * vx + vy * vy) ** 0.5: return True
+        return False
+    return backtracks(A) or backtracks(B)
+
+
 def known_key(c, clause='', text=''):
     """input classes of the recorded findings (known_findings.json, property C03): specific to call, path and failing clause"""
     keys = []
+    if c.call == 'DIF' and 'ii-sides' in clause and near_coincident_backtracking(c.A, c.B):
+        keys.append('difference-near-coincident-backtracking-large-magnitude')
     if c.call == 'CU' and clause == 'i-valid' and c.R is not None and ring_revisits_vertex(c.R):
         keys.append('coverageunion-boundary-touches-at-vertex')
     if not sc_path(c):
